@@ -49,6 +49,13 @@ Theorem C06_set_frame : forall p p' x y v,
 Proof. exact set_pixel_frame. Qed.
 Print Assumptions C06_set_frame.
 
+(* Setting a pixel to the value it already has leaves the page exactly as it was (every byte, the size): a redundant edit is
+   no edit. *)
+Theorem C06_set_redundant : forall p x y v,
+  wf_page p -> get_pixel p x y = Some v -> set_pixel p x y v = Some p.
+Proof. exact PageP.set_pixel_redundant. Qed.
+Print Assumptions C06_set_redundant.
+
 Theorem C06_set_all : forall p v,
   wf_page p ->
   exists p', set_all_pixels p v = Some p' /\ wf_page p' /\ same_frame p p'
